@@ -248,10 +248,10 @@ class RefWriter(object):
 
             ind = op.get('indent', 4)
 
-            # indent=None is the documented "no indentation, no indent
-            # option"
-            if ind is not None and (not isinstance(ind, int) or
-                                    isinstance(ind, bool) or ind < 0):
+            # (an explicit indent=None is outside the domain the properties
+            # state - "indent >= 0" - and the writer's documentation does
+            # not say what it means: not modelled)
+            if not isinstance(ind, int) or isinstance(ind, bool) or ind < 0:
                 return REJECT_ARG
         elif name == 'write_meta':
             md = op.get('metadata')
